@@ -28,8 +28,8 @@ std::string prop_generate(Tape & t, int size) {
         sp.fsr = true;
         const DType & dt = DTYPES[t.below(N_DTYPES)];
         Op def = gen_signal(t, sp.id, 1, dt, DEF_MINIMAL);
-        def.annodf = (uint32_t) t.pick(std::vector<uint32_t>{2, 3, 2, 10, 0, 3});
-        sp.df = def.annodf ? def.annodf : 100;
+        def.annodf = (uint32_t) t.pick(std::vector<uint32_t>{2, 10, 12, 10, 0, 3, 16});
+        sp.df = def.annodf ? std::max<uint32_t>(def.annodf, 10) : 100;   // factors below 10 are raised to the minimum by the library
         p.ops.push_back(def);
         // first sample id: the reader reports annotation timestamps relative to it
         sp.first = t.chance(1, 3) ? 0 : gen_first_id(t);
